@@ -249,7 +249,8 @@ def env(fs):
 DATA = "/nonexistent-verif/corpus/documents.json"
 TABLE = DATA + ".offset"
 TARGETS = [0, 1, 2, STEP - 1, STEP, STEP + 1, 2 * STEP - 1, 2 * STEP, 2 * STEP + 1, 2 * STEP + 17000]
-CRASH_TARGETS = [0, 1, STEP, STEP + 1, 2 * STEP, 2 * STEP + 17000]
+CRASH_TARGETS = [1, STEP, STEP + 1, 2 * STEP + 17000]
+_EVENTS = {}
 
 
 def make_data(sl, small=False):
@@ -306,12 +307,15 @@ def table_crash_points(sl):
     fs.data[DATA] = df
     if sl["initial"] == "stale":
         fs.files[TABLE] = {"text": "50000;1\n100000;2\n", "mtime": df.mtime - 10}
-    # dry run to count the events of an undisturbed build
-    probe = FS()
-    probe.data[DATA] = df
-    with env(probe):
-        rio.prepare_file_offset_table(DATA)
-    total_events = probe.events
+    # dry run to count the events of an undisturbed build (same for every path of this process)
+    key = tuple(sorted(df.extras.items()))
+    if key not in _EVENTS:
+        probe = FS()
+        probe.data[DATA] = df
+        with env(probe):
+            rio.prepare_file_offset_table(DATA)
+        _EVENTS[key] = probe.events
+    total_events = _EVENTS[key]
     k = fresh_int("crash_at_event", 1, total_events)
     fs.crash_at = concrete(k)
     try:
